@@ -310,6 +310,11 @@ def pipeline_c01(tier, rep):
     val = rec_files(d, lib.MAIN_HOST, "rec_marshal.py", files, "vx", nproc=14)
     ok, err, rej, stats = judge(val, "val", "C01")
     report(rep, "C01", ok, err, rej, stats, "val", lambda r: len(r["tok"]) > 50)
+    for r_ in val:
+        if r_.get("argdep"):
+            rep.reject("C01.tree_depends_on_code_objects_argument", "load_module_from_file_object(code_objects=...)",
+                       {"id": r_["id"], "note": "the same file loaded with and without a (non-empty) code_objects dictionary gives trees that differ"},
+                       {"id": r_["id"]})
     rep.extra["inputs"] = {"writer_behaviours": len(beh), "wrapped_streams_replayed_into_xdis": len(wrapped), "replayed_into_cpython": n_ora,
                            "files": len(files), "oracle_files": len(ora)}
     rep.assumptions += ["for 1.0-2.6, 3.0-3.5 and PyPy no interpreter is installed: the spec is the only oracle",
